@@ -236,6 +236,7 @@ class Driver:
                 "spec": mspec,
                 "expect": {"kind": mv["kind"], "locus": mv.get("locus", "")},
                 "detail": mv.get("detail", "")[:4000],
+                "first_seen_detail": v.get("detail", "")[:2000],  # of the run that first showed this class, before minimisation
                 "minimised_from": size0,
                 "minimised_to": c.spec_size(mspec) if hasattr(c, "spec_size") else None,
                 "shrink_steps": steps,
@@ -257,6 +258,8 @@ class Driver:
             rc = 1
             lines.append(f"VIOLATION property={c.PROP} replay={path}")
             lines.append(f"  class={cls} seen={self.viol_counts[cls]}x detail={mv.get('detail', '')[:600]}")
+            if v.get("detail", "")[:300] != mv.get("detail", "")[:300]:
+                lines.append(f"  first-seen-detail={v.get('detail', '')[:600]}")
             self.reported.append({"class": cls, "replay": path, "detail": mv.get("detail", "")[:600]})
         if self.harness_errors:
             for h in self.harness_errors[:10]:
